@@ -36,6 +36,8 @@ class EntryMonitor:
         mon = self
 
         def wrapper(*a, **k):
+            if getattr(mon.b, 'twin_active', False):
+                return real(*a, **k)          # (a detour step of the 'twin' fault: not observed)
             align = False
             stage2 = False
             if kind == 'dabt' and a:
